@@ -25,7 +25,7 @@ import traceback
 import collections
 
 VERIF = os.path.dirname(os.path.dirname(os.path.abspath(__file__)))
-EVIDENCE = os.path.join(VERIF, 'evidence')
+EVIDENCE = os.environ.get('BQVERIF_EVIDENCE_DIR') or os.path.join(VERIF, 'evidence')
 REPLAYS = os.path.join(EVIDENCE, 'replays')
 DEPS = os.path.join(VERIF, '.deps')
 WHEELS = '/opt/veriftools/wheels'
